@@ -3,7 +3,7 @@ import Upd.RefQuiet
 import Upd.C04
 /-! C07 over histories: the structural invariant `RK` of a repository's referrers bookkeeping, how every request
     changes the list read for a subject, and the theorem `refok_reach_partial`. -/
-namespace Upd
+namespace Upd.Rf
 
 /-- subject field of a manifest body as the handlers see it -/
 def subjOf (b : Body) : String := match b.kind with | "image" | "index" => b.subj | _ => ""
@@ -220,9 +220,9 @@ theorem RK.quiet {s s' : State} (hK : RK T r s) (hq : Quiet r s s') (hinv : Inv 
   apply hK.table n l
   unfold State.resp at h ⊢; rw [← hq.resps]; exact h
 end
-end Upd
+end Upd.Rf
 
-namespace Upd
+namespace Upd.Rf
 section
 variable {T : Desc → Prop} {r : String}
 
@@ -314,9 +314,9 @@ theorem respList_storeResp_other {s : State} (hK : RK T r s) (hN : Names T) (S :
     (fun n l h => storeResp_resp_mono s r S ds n l h)
     (hK.storeResp hN S hS ds hT).cas
 end
-end Upd
+end Upd.Rf
 
-namespace Upd
+namespace Upd.Rf
 section
 variable {T : Desc → Prop} {r : String}
 
@@ -342,7 +342,7 @@ theorem withIndex_blob (s : State) (r : String) (ix : Index) (g : Dig) : ((withI
 
 theorem RK.withIndex {s : State} (hK : RK T r s) (ix : Index) (hsame : SubSame (s.repo r).index.manifests ix.manifests) :
     RK T r (withIndex s r ix) := by
-  apply hK.transfer (Upd.withIndex s r ix) (index_only s r ix hK.inv) (withIndex_frame s r ix).2.1
+  apply hK.transfer (Upd.Rf.withIndex s r ix) (index_only s r ix hK.inv) (withIndex_frame s r ix).2.1
   · intro n l h; rw [withIndex_resp] at h; exact hK.table n l h
   · rw [withIndex_repo]; exact hsame
   · intro g hg; rw [withIndex_blob]; exact hg
@@ -467,9 +467,9 @@ theorem mCommit_lists {s : State} (hK : RK T r s) (hN : Names T) (b : String) (a
     · intro S hS hne
       rw [hl3' S hS hne, hl2 S hS]
 end
-end Upd
+end Upd.Rf
 
-namespace Upd
+namespace Upd.Rf
 section
 variable {T : Desc → Prop} {r : String}
 
@@ -623,9 +623,9 @@ theorem mDel_dig_lists {s : State} (hK : RK T r s) (hN : Names T) (arg : String)
       · rw [h3 S hS, respList_storeResp_other hK hN _ hsb _ hTl S hS hne]
       · rw [h3 S hS, h, respList_storeResp_self hK hN _ hsb _ hTl]
 end
-end Upd
+end Upd.Rf
 
-namespace Upd
+namespace Upd.Rf
 section
 variable {T : Desc → Prop} {r : String}
 
@@ -740,11 +740,11 @@ theorem step_mDel_shape (s : State) (r0 arg : String) :
     | (left; exact ⟨rfl, by simp [notFound, notAllowed, denied, nameInvalid]⟩)
 
 /-- requests that are neither manifest pushes, manifest deletes nor blob deletes -/
-def Req.isQuiet : Req → Bool
+def isQuietReq : Req → Bool
   | .mPut .. | .mDel .. | .bDel .. => false
   | _ => true
 
-theorem quiet_step (r : String) (s : State) (q : Req) (hq : q.isQuiet = true) : Quiet r s (step s q).1 := by
+theorem quiet_step (r : String) (s : State) (q : Req) (hq : isQuietReq q = true) : Quiet r s (step s q).1 := by
   cases q with
   | uPost r0 q => simp only [step]; repeat' split
                   all_goals first | exact Quiet.refl _ s | exact quiet_uPost _ _ _ _
@@ -772,9 +772,9 @@ theorem quiet_step_bDel_other (r : String) (s : State) (r0 arg : String) (h : r 
   simp only [step]; repeat' split
   all_goals first | exact Quiet.refl _ s | exact quiet_bDel_other _ _ _ _ h
 end
-end Upd
+end Upd.Rf
 
-namespace Upd
+namespace Upd.Rf
 section
 variable {T : Desc → Prop} {r : String}
 
@@ -883,11 +883,36 @@ theorem rmFrom_nodup (old : List Desc) (g0 : String) (hg0 : g0 ≠ "") (h : (old
   rw [hp.nodup_iff]
   exact h.sublist ((List.filter_sublist).map _)
 end
-end Upd
+end Upd.Rf
 
-namespace Upd
+namespace Upd.Rf
 section
 variable {T : Desc → Prop} {r : String}
+
+theorem specStep_mPut (r : String) (G : Spec) (r0 ref ct qd b : String) (lk : Bool) (resp : Resp) :
+    specStep r G (.mPut r0 ref ct qd b lk) resp =
+      if r0 = r ∧ resp.status = 201 ∧ resp.subj ≠ "" then fun S g => G S g ∨ (S = resp.subj ∧ g = resp.dcd) else G := rfl
+theorem specStep_mDel (r : String) (G : Spec) (r0 ref : String) (resp : Resp) :
+    specStep r G (.mDel r0 ref) resp =
+      if r0 = r ∧ resp.status = 202 ∧ isTag ref = false then
+        match DigArg.parse ref with
+        | .ok d => fun S g => G S g ∧ g ≠ d.str
+        | .bad => G
+      else G := rfl
+theorem specStep_mPut_no (r : String) (G : Spec) (r0 ref ct qd b : String) (lk : Bool) (resp : Resp)
+    (h : ¬ (r0 = r ∧ resp.status = 201 ∧ resp.subj ≠ "")) : specStep r G (.mPut r0 ref ct qd b lk) resp = G := by
+  rw [specStep_mPut, if_neg h]
+theorem specStep_mPut_yes (r : String) (G : Spec) (ref ct qd b : String) (lk : Bool) (resp : Resp)
+    (h1 : resp.status = 201) (h2 : resp.subj ≠ "") :
+    specStep r G (.mPut r ref ct qd b lk) resp = fun S g => G S g ∨ (S = resp.subj ∧ g = resp.dcd) := by
+  rw [specStep_mPut, if_pos ⟨rfl, h1, h2⟩]
+theorem specStep_mDel_no (r : String) (G : Spec) (r0 ref : String) (resp : Resp)
+    (h : ¬ (r0 = r ∧ resp.status = 202 ∧ isTag ref = false)) : specStep r G (.mDel r0 ref) resp = G := by
+  rw [specStep_mDel, if_neg h]
+theorem specStep_mDel_yes (r : String) (G : Spec) (ref : String) (resp : Resp) (d : Dig)
+    (h1 : resp.status = 202) (h2 : isTag ref = false) (hp : DigArg.parse ref = .ok d) :
+    specStep r G (.mDel r ref) resp = fun S g => G S g ∧ g ≠ d.str := by
+  rw [specStep_mDel, if_pos ⟨rfl, h1, h2⟩, hp]
 
 theorem touch_keeps {s : State} {G : Spec} (hK : RK T r s) (hJ : RJ r s G) (hN : Names T) :
     RK T r (s.setRepo (s.repo r)) ∧ RJ r (s.setRepo (s.repo r)) G :=
@@ -904,11 +929,10 @@ theorem mPut_r {s : State} {G : Spec} (hK : RK T r s) (hJ : RJ r s G) (hN : Name
   generalize s.setRepo (s.repo r) = s0 at hK0 hJ0 hadm ⊢
   cases hv : mValidate s0 r ref ct qd b lk with
   | error e =>
-    simp only [specStep]
     have hne : ¬ (r = r ∧ e.status = 201 ∧ e.subj ≠ "") := by
       intro ⟨_, h, _⟩
       rcases mValidate_refusal_4xx s0 r ref ct qd b lk e hv with h4 | h4 <;> rw [h4] at h <;> cases h
-    rw [if_neg hne]
+    rw [specStep_mPut_no r G r ref ct qd b lk e hne]
     exact ⟨hK0, hJ0⟩
   | ok a =>
     simp only []
@@ -920,15 +944,14 @@ theorem mPut_r {s : State} {G : Spec} (hK : RK T r s) (hJ : RJ r s G) (hN : Name
     obtain ⟨hK', hm, hb, hl0, hl1⟩ := mCommit_lists hK0 hN b a hd hT
     have hresp : (mCommit s0 r b a).2 = { status := 201, loc := manLoc r a.d, dcd := a.d.str, subj := a.subject } := rfl
     rw [hresp]
-    simp only [specStep]
     generalize (mCommit s0 r b a).1 = s' at hK' hm hb hl0 hl1 ⊢
     refine ⟨hK', ?_⟩
     have hbody : ∀ c, subjOf (s0.body c) ≠ "" → s'.body c = s0.body c := fun c _ => body_of_defs hm.defs c
     by_cases hsub : a.subject = ""
-    · have hne : ¬ (r = r ∧ (201 : Nat) = 201 ∧ a.subject ≠ "") := fun h => h.2.2 hsub
-      rw [if_neg hne]
+    · rw [specStep_mPut_no r G r ref ct qd b lk _ (fun h => h.2.2 hsub)]
       exact hJ0.same hK0.cas hK'.cas hm.blob hbody (hl0 hsub)
-    · rw [if_pos ⟨rfl, rfl, hsub⟩]
+    · rw [specStep_mPut_yes r G ref ct qd b lk _ rfl hsub]
+      simp only []
       obtain ⟨hself, hother⟩ := hl1 hsub
       refine ⟨fun S hS => ?_, fun S hS x hx => ?_, fun S hS g => ?_⟩
       · by_cases hSS : S = a.subject
@@ -972,25 +995,19 @@ theorem mDel_r {s : State} {G : Spec} (hK : RK T r s) (hJ : RJ r s G) (hN : Name
   cases hg : getDesc ((s.setRepo (s.repo r)).repo r).index arg with
   | none =>
     rw [mDel_none s r arg hg]
-    simp only [specStep]
-    have hne : ¬ (r = r ∧ (404 : Nat) = 202 ∧ isTag arg = false) := by intro ⟨_, h, _⟩; cases h
-    rw [if_neg hne]
+    rw [specStep_mDel_no r G r arg _ (by intro ⟨_, h, _⟩; cases h)]
     exact ⟨hK0, hJ0⟩
   | some desc =>
     rw [mDel_some s r arg desc hg]
-    simp only [specStep]
     generalize s.setRepo (s.repo r) = s0 at hK0 hJ0 hg ⊢
     cases ht : isTag arg with
     | true =>
-      have hne : ¬ (r = r ∧ (202 : Nat) = 202 ∧ true = false) := by intro ⟨_, _, h⟩; cases h
-      rw [if_neg hne]
+      rw [specStep_mDel_no r G r arg _ (by intro ⟨_, _, h⟩; rw [ht] at h; cases h)]
       obtain ⟨hK', hm, hl⟩ := mDel_tag_lists hK0 hN arg desc ht hg
       exact ⟨hK', hJ0.same hK0.cas hK'.cas hm.blob (fun c _ => body_of_defs hm.defs c) hl⟩
     | false =>
-      rw [if_pos ⟨rfl, rfl, rfl⟩]
       obtain ⟨d, hp, hdesc, hnil⟩ := getDesc_dig _ _ _ ht hg
-      rw [hp]
-      simp only []
+      rw [specStep_mDel_yes r G arg _ d rfl ht hp]
       have hfree : ∀ ds, desc.dig ≠ (respDig ds).str := by
         intro ds; rw [hdesc]; exact hadm ht d hp ds
       obtain ⟨hK', hm, hl⟩ := mDel_dig_lists hK0 hN arg desc ht hnil hfree
@@ -1031,4 +1048,207 @@ theorem mDel_r {s : State} {G : Spec} (hK : RK T r s) (hJ : RJ r s G) (hN : Name
             exact honly S hS hSS h
           · exact fun h => h.1
 end
-end Upd
+end Upd.Rf
+
+namespace Upd.Rf
+section
+variable {T : Desc → Prop} {r : String}
+
+/-! ### histories -/
+
+/-- what is required of an event, in the state in which it is executed:
+    * no blob delete is addressed to `r`;
+    * if a manifest push (into any repository) is accepted, its referrer descriptor is in `T`; a push into `r`
+      moreover has a digest whose string parses back;
+    * a manifest delete by digest in `r` does not name the digest of a referrers response document -/
+def Adm (T : Desc → Prop) (r : String) (s : State) : Ev → Prop
+  | .req (.bDel r0 _) => r0 ≠ r
+  | .req (.mPut r0 ref ct qd b lk) =>
+      ∀ a, mValidate (s.setRepo (s.repo r0)) r0 ref ct qd b lk = .ok a → T a.refd ∧ (r0 = r → DigRT a.d)
+  | .req (.mDel r0 ref) =>
+      r0 = r → isTag ref = false → ∀ d, DigArg.parse ref = .ok d → ∀ ds, d.str ≠ (respDig ds).str
+  | _ => True
+
+def AdmHist (T : Desc → Prop) (r : String) : State → List Ev → Prop
+  | _, [] => True
+  | s, e :: es => Adm T r s e ∧ AdmHist T r (stepEv s e) es
+
+def specEv (r : String) (s : State) (G : Spec) : Ev → Spec
+  | .req q => specStep r G q (step s q).2
+  | .defBody _ _ => G
+
+/-- the specification after a history -/
+def specAfter (r : String) : State → Spec → List Ev → Spec
+  | _, G, [] => G
+  | s, G, e :: es => specAfter r (stepEv s e) (specEv r s G e) es
+
+theorem body_append (s : State) (n : String) (b : Body) (c : String) (h : subjOf (s.body c) ≠ "") :
+    ({ s with defs := s.defs ++ [(n, b)] } : State).body c = s.body c := by
+  unfold State.body at h ⊢
+  simp only [List.find?_append]
+  cases hf : s.defs.find? (fun x => x.1 = c) with
+  | some p => simp
+  | none =>
+    rw [hf] at h
+    exact absurd subjOf_default h
+
+theorem other_repo_keeps {s : State} {G : Spec} (hK : RK T r s) (hJ : RJ r s G) (hN : Names T) (q : Req)
+    (hne : r ≠ q.target) (htable : TableOK T (step s q).1) (hgrow : RespsGrow s (step s q).1) :
+    RK T r (step s q).1 ∧ RJ r (step s q).1 G := by
+  have hf := step_frame s q
+  have hrepo := hf.1 r hne
+  exact keep_all hK hJ hN (step_inv s q hK.inv) hf.2.1 hf.2.2 (by rw [hrepo]) (fun g hg => by rw [hrepo]; exact hg) htable hgrow
+
+theorem stepEv_keeps {s : State} {G : Spec} (hK : RK T r s) (hJ : RJ r s G) (hN : Names T) (e : Ev)
+    (hadm : Adm T r s e) : RK T r (stepEv s e) ∧ RJ r (stepEv s e) (specEv r s G e) := by
+  cases e with
+  | defBody n b =>
+    have hK' : RK T r (stepEv s (.defBody n b)) := ⟨hK.inv, hK.ref, hK.table, hK.noTagSubj, hK.subjFun, hK.reg⟩
+    exact ⟨hK', hJ.same hK.cas hK'.cas (fun _ h => h) (fun c hc => body_append s n b c hc) (fun _ _ => rfl)⟩
+  | req q =>
+    have hinv := step_inv s q hK.inv
+    cases q with
+    | uPost r0 q => exact keep_quiet hK hJ hN hinv (quiet_step r s _ rfl)
+    | uPatch r0 i q => exact keep_quiet hK hJ hN hinv (quiet_step r s _ rfl)
+    | uPut r0 i q => exact keep_quiet hK hJ hN hinv (quiet_step r s _ rfl)
+    | uGet r0 i => exact keep_quiet hK hJ hN hinv (quiet_step r s _ rfl)
+    | uDel r0 i => exact keep_quiet hK hJ hN hinv (quiet_step r s _ rfl)
+    | bGet r0 a hd rng => exact keep_quiet hK hJ hN hinv (quiet_step r s _ rfl)
+    | mGet r0 ref acc hd rng => exact keep_quiet hK hJ hN hinv (quiet_step r s _ rfl)
+    | tags r0 n l => exact keep_quiet hK hJ hN hinv (quiet_step r s _ rfl)
+    | refs r0 a f c p => exact keep_quiet hK hJ hN hinv (quiet_step r s _ rfl)
+    | bDel r0 a =>
+      have hne : r ≠ r0 := fun h => hadm h.symm
+      exact keep_quiet hK hJ hN hinv (quiet_step_bDel_other r s r0 a hne)
+    | mPut r0 ref ct qd b lk =>
+      show RK T r (step s (.mPut r0 ref ct qd b lk)).1 ∧
+        RJ r (step s (.mPut r0 ref ct qd b lk)).1 (specStep r G (.mPut r0 ref ct qd b lk) (step s (.mPut r0 ref ct qd b lk)).2)
+      by_cases hr : r0 = r
+      · subst hr
+        rcases step_mPut_shape s r0 ref ct qd b lk with ⟨h1, h2⟩ | h
+        · rw [specStep_mPut_no r0 G r0 ref ct qd b lk _ (fun h => h2 h.2.1), h1]
+          exact ⟨hK, hJ⟩
+        · rw [h]
+          exact mPut_r hK hJ hN ref ct qd b lk (fun a ha => ⟨(hadm a ha).1, (hadm a ha).2 rfl⟩)
+      · rw [specStep_mPut_no r G r0 ref ct qd b lk _ (fun h => hr h.1)]
+        apply other_repo_keeps hK hJ hN (.mPut r0 ref ct qd b lk) (fun h => hr h.symm)
+        · rcases step_mPut_shape s r0 ref ct qd b lk with ⟨h1, _⟩ | h
+          · rw [h1]; exact hK.table
+          · rw [h]; exact (tg_mPut hK.table r0 ref ct qd b lk (fun a ha => (hadm a ha).1)).1
+        · rcases step_mPut_shape s r0 ref ct qd b lk with ⟨h1, _⟩ | h
+          · rw [h1]; exact fun _ _ h => h
+          · rw [h]; exact (tg_mPut hK.table r0 ref ct qd b lk (fun a ha => (hadm a ha).1)).2
+    | mDel r0 ref =>
+      show RK T r (step s (.mDel r0 ref)).1 ∧
+        RJ r (step s (.mDel r0 ref)).1 (specStep r G (.mDel r0 ref) (step s (.mDel r0 ref)).2)
+      by_cases hr : r0 = r
+      · subst hr
+        rcases step_mDel_shape s r0 ref with ⟨h1, h2⟩ | h
+        · rw [specStep_mDel_no r0 G r0 ref _ (fun h => h2 h.2.1), h1]
+          exact ⟨hK, hJ⟩
+        · rw [h]
+          exact mDel_r hK hJ hN ref (hadm rfl)
+      · rw [specStep_mDel_no r G r0 ref _ (fun h => hr h.1)]
+        apply other_repo_keeps hK hJ hN (.mDel r0 ref) (fun h => hr h.symm)
+        · rcases step_mDel_shape s r0 ref with ⟨h1, _⟩ | h
+          · rw [h1]; exact hK.table
+          · rw [h]; exact (tg_mDel hK.table r0 ref).1
+        · rcases step_mDel_shape s r0 ref with ⟨h1, _⟩ | h
+          · rw [h1]; exact fun _ _ h => h
+          · rw [h]; exact (tg_mDel hK.table r0 ref).2
+
+theorem hist_keeps (hN : Names T) : ∀ (hist : List Ev) (s : State) (G : Spec), RK T r s → RJ r s G → AdmHist T r s hist →
+    RK T r (hist.foldl stepEv s) ∧ RJ r (hist.foldl stepEv s) (specAfter r s G hist) := by
+  intro hist
+  induction hist with
+  | nil => intro s G hK hJ _; exact ⟨hK, hJ⟩
+  | cons e es ih =>
+    intro s G hK hJ hadm
+    obtain ⟨h1, h2⟩ := stepEv_keeps hK hJ hN e hadm.1
+    exact ih _ _ h1 h2 hadm.2
+
+theorem RK.init (conf : Conf) (href : conf.ref = true) : RK T r { conf := conf } := by
+  refine ⟨by intro rp hrp; simp at hrp, href, ?_, ?_, ?_, ?_⟩
+  · intro n l h; simp [State.resp] at h
+  · intro e he; simp [State.repo] at he
+  · intro e he; simp [State.repo] at he
+  · intro e he; simp [State.repo] at he
+
+theorem respList_init (conf : Conf) (r S : String) : respList ({ conf := conf } : State) r S = [] := by
+  apply respList_of_none
+  simp [State.repo, getBySubj]
+
+theorem RJ.init (conf : Conf) : RJ r { conf := conf } (fun _ _ => False) := by
+  have h : ∀ S, respList ({ conf := conf } : State) r S = [] := fun S => respList_init conf r S
+  refine ⟨fun S _ => by rw [h S]; simp, fun S _ x hx => by rw [h S] at hx; simp at hx, fun S _ g => by rw [h S]; simp⟩
+
+/-- C07 over histories (partial): after every admissible history from the empty registry with the referrers API on,
+    for every subject `S` the digests listed in the response registered for `S` in `r` are exactly those the
+    specification `specAfter` has accumulated for `S` — pushed into `r` with that subject and not deleted by digest
+    since — and no digest is listed twice. -/
+theorem refok_reach_partial (hN : Names T) (conf : Conf) (href : conf.ref = true) (hist : List Ev)
+    (hadm : AdmHist T r { conf := conf } hist) (S : String) (hS : S ≠ "") :
+    (∀ g, g ∈ (respList (hist.foldl stepEv { conf := conf }) r S).map (·.dig) ↔
+        specAfter r { conf := conf } (fun _ _ => False) hist S g) ∧
+    ((respList (hist.foldl stepEv { conf := conf }) r S).map (·.dig)).Nodup := by
+  obtain ⟨_, hJ⟩ := hist_keeps hN hist { conf := conf } (fun _ _ => False) (RK.init conf href) (RJ.init conf) hadm
+  exact ⟨hJ.spec S hS, hJ.nodup S hS⟩
+end
+end Upd.Rf
+
+namespace Upd.Rf
+section
+variable {T : Desc → Prop} {r : String}
+
+/-! ### the invariant under one name -/
+
+/-- `RefOK T r s G`: the referrers bookkeeping of `r` is well formed (`RK`) and, for every subject, the digests listed
+    in its response are exactly those of the specification `G`, each once, each the digest of a stored manifest
+    whose body names that subject (`RJ`) -/
+def RefOK (T : Desc → Prop) (r : String) (s : State) (G : Spec) : Prop := RK T r s ∧ RJ r s G
+
+theorem specStep_other (r : String) (G : Spec) (q : Req) (resp : Resp) (h : q.target ≠ r) : specStep r G q resp = G := by
+  cases q with
+  | mPut r0 ref ct qd b lk => exact specStep_mPut_no r G r0 ref ct qd b lk resp (fun h' => h h'.1)
+  | mDel r0 ref => exact specStep_mDel_no r G r0 ref resp (fun h' => h h'.1)
+  | _ => rfl
+
+/-- preserved by a manifest push into `r` (with or without subject, accepted or refused) -/
+theorem refok_push {s : State} {G : Spec} (h : RefOK T r s G) (hN : Names T) (ref ct qd b : String) (lk : Bool)
+    (hadm : ∀ a, mValidate (s.setRepo (s.repo r)) r ref ct qd b lk = .ok a → T a.refd ∧ DigRT a.d) :
+    RefOK T r (mPut s r ref ct qd b lk).1 (specStep r G (.mPut r ref ct qd b lk) (mPut s r ref ct qd b lk).2) :=
+  mPut_r h.1 h.2 hN ref ct qd b lk hadm
+
+/-- preserved by a manifest delete in `r`, by tag or by digest, unless the digest is that of a response document -/
+theorem refok_delete {s : State} {G : Spec} (h : RefOK T r s G) (hN : Names T) (arg : String)
+    (hadm : isTag arg = false → ∀ d, DigArg.parse arg = .ok d → ∀ ds, d.str ≠ (respDig ds).str) :
+    RefOK T r (mDel s r arg).1 (specStep r G (.mDel r arg) (mDel s r arg).2) :=
+  mDel_r h.1 h.2 hN arg hadm
+
+/-- a delete by tag changes no response and no specification -/
+theorem refok_delete_tag {s : State} {G : Spec} (h : RefOK T r s G) (hN : Names T) (arg : String) (ht : isTag arg = true) :
+    RefOK T r (mDel s r arg).1 G ∧ ∀ S, S ≠ "" → respList (mDel s r arg).1 r S = respList s r S := by
+  have h1 := mDel_r h.1 h.2 hN arg (fun hf => by rw [ht] at hf; cases hf)
+  rw [specStep_mDel_no r G r arg _ (fun h' => by rw [ht] at h'; cases h'.2.2)] at h1
+  refine ⟨h1, fun S hS => ?_⟩
+  obtain ⟨hK0, _⟩ := touch_keeps h.1 h.2 hN
+  have hl0 := respList_quiet h.1 hN (quiet_touch r s r) hK0.inv S hS
+  cases hg : getDesc ((s.setRepo (s.repo r)).repo r).index arg with
+  | none => rw [mDel_none s r arg hg]; exact hl0
+  | some desc =>
+    rw [mDel_some s r arg desc hg]
+    exact ((mDel_tag_lists hK0 hN arg desc ht hg).2.2 S hS).trans hl0
+
+/-- preserved by any request addressed to another repository (pushes there must still stay within `T`) -/
+theorem refok_other_repo {s : State} {G : Spec} (h : RefOK T r s G) (hN : Names T) (q : Req) (hne : q.target ≠ r)
+    (hadm : Adm T r s (.req q)) : RefOK T r (step s q).1 G := by
+  have h1 : RK T r (step s q).1 ∧ RJ r (step s q).1 (specStep r G q (step s q).2) :=
+    stepEv_keeps h.1 h.2 hN (.req q) hadm
+  rw [specStep_other r G q _ hne] at h1
+  exact h1
+
+/-- preserved by every admissible event -/
+theorem refok_step {s : State} {G : Spec} (h : RefOK T r s G) (hN : Names T) (e : Ev) (hadm : Adm T r s e) :
+    RefOK T r (stepEv s e) (specEv r s G e) := stepEv_keeps h.1 h.2 hN e hadm
+end
+end Upd.Rf
